@@ -108,10 +108,16 @@ def hexValue : Bytes → Nat → Nat
 
 def isWsb (b : UInt8) : Bool := b = sp || b = ht
 
-/-- split at the first LF: (line including LF, rest) -/
-def splitLf : Bytes → Bytes → Option (Bytes × Bytes)
+/-- offset of the first LF -/
+def lfIdx : Bytes → Nat → Option Nat
   | [], _ => none
-  | b :: rest, acc => if b = lf then some (acc ++ [b], rest) else splitLf rest (acc ++ [b])
+  | b :: rest, i => if b = lf then some i else lfIdx rest (i + 1)
+
+/-- split at the first LF: (acc ++ line including LF, rest) -/
+def splitLf (data acc : Bytes) : Option (Bytes × Bytes) :=
+  match lfIdx data 0 with
+  | none => none
+  | some i => some (acc ++ data.take (i + 1), data.drop (i + 1))
 
 inductive CkOut
   | ub (what : String)
@@ -208,201 +214,6 @@ def ck2 (data : Bytes) : CkOut :=
           let clen : Int := if te2 - 2 > rest.length then rest.length else te2 - 2
           let te3 := te2 - clen
           if (rest.length : Int) - clen = 0 then .ok te3 clen.toNat 0 false else .unmodelled
-
-/-! ### http_chunk_decode_append_data() across reads: the header / trailer accumulator -/
-
-/-- per-request decoder state kept between reads: `gw_chunked`, `gw_dechunk->b`, `done`,
-    and the number of body bytes handed on -/
-structure GwSt where
-  te : Int := 0
-  h : Bytes := []
-  done : Bool := false
-  out : Nat := 0
-deriving Repr, DecidableEq
-
-/-- one iteration of the `while (len)` loop -/
-inductive GwIter
-  | ub (what : String)
-  | err                                  -- return -1
-  | stop (st : GwSt)                     -- break
-  | cont (st : GwSt) (m : Bytes)         -- next iteration with the rest of the read
-deriving Repr, DecidableEq
-
-/-- offset of the first CRLFCRLF (strstr) -/
-def findCrlfCrlf : Bytes → Nat → Option Nat
-  | [], _ => none
-  | b :: rest, i =>
-    if b = cr && rest.take 3 = [lf, cr, lf] then some i else findCrlfCrlf rest (i + 1)
-
-/-- offset of the last LF (strrchr) -/
-def lastLf (bs : Bytes) : Option Nat :=
-  match splitLf bs.reverse [] with
-  | none => none
-  | some (line, _) => some (bs.length - line.length)
-
-/-- text validity after the hex digits (`*s != '\r'`, BWS, then CR or ';') -/
-def gwTailOk (after : Bytes) : Bool :=
-  if after.head? = some cr then true
-  else
-    match (after.dropWhile isWsb).head? with
-    | some b => b = cr || b = 59
-    | none => false
-
-/-- the last-chunk line is complete (gw_chunked = 0 after the hex loop): immediate CRLF, or
-    trailer accumulation bounded by `maxField` (server.max-request-field-size).
-    `h` = header buffer holding the line or [] (line then at the start of `m`), `hsz` as in the C,
-    `p` = the bytes the C pointer `p` points at. -/
-def gwLastChunk (maxField : Nat) (st : GwSt) (h m : Bytes) (hsz : Nat) (p : Bytes) : GwIter :=
-  let len : Int := m.length
-  if len - hsz ≥ 2 && p.getD 0 0 = cr && p.getD 1 0 = lf then
-    if len - hsz > 2 then .err else .stop { st with te := 0, h := [], done := true }
-  else
-    let mlen := if maxField > h.length then maxField - h.length else 0
-    if (mlen : Int) < len then
-      let h1 := h ++ m.take mlen
-      let h3 : Bytes :=
-        match lastLf h1 with
-        | some q =>
-          let h2 := h1.take (q + 1)
-          if h2.getD (q - 1) 0 ≠ cr then h2 ++ [cr, lf] else h2
-        | none => [48, cr, lf]
-      .stop { st with te := 0, h := h3 ++ [cr, lf], done := true }
-    else
-      let h1 := h ++ m
-      match findCrlfCrlf h1 0 with
-      | some k => if h1.length > k + 4 then .err else .stop { st with te := 0, h := h1, done := true }
-      | none => .stop { st with te := 0, h := h1 }
-
-/-- after a complete chunk-size line: hex loop, validity, then last-chunk handling or
-    `gw_chunked = size + 2`.  `src` = the bytes the hex loop reads (start of `mem` or of `h`),
-    `lineOk` = the CR test made while locating the line, `adv` = bytes of `m` the line occupies. -/
-def gwLine (maxField : Nat) (st : GwSt) (src : Bytes) (lineOk : Bool) (h m : Bytes) (hsz adv : Nat)
-    (p : Bytes) (fromH : Bool) : GwIter :=
-  match ckHex Extracted.ckGuardGw src 0 0 with
-  | .ub w => .ub w
-  | .tooLarge => .err
-  | .ok te k after =>
-    if !(lineOk && k ≠ 0 && gwTailOk after) then .err
-    else if te = 0 then gwLastChunk maxField st h m hsz p
-    else if fromH && hsz ≠ 0 then .ub "mem += hsz with hsz taken from the header buffer"
-    else
-      let te2 := te + 2
-      if !inI64 te2 then .ub "te+2"
-      else
-        let m' := m.drop adv
-        if m'.isEmpty then .stop { st with te := te2, h := [] } else .cont { st with te := te2, h := [] } m'
-
-def gwIter (maxField : Nat) (st : GwSt) (m : Bytes) : GwIter :=
-  if st.te = 0 then
-    if st.h.isEmpty then
-      match splitLf m [] with
-      | none =>
-        if m.length ≥ Extracted.ckPartialMaxGw then .err else .stop { st with h := m }
-      | some (line, rest) =>
-        let hsz := line.length
-        let ok := !(hsz = 1 || line.getD (hsz - 2) 0 ≠ cr)
-        gwLine maxField st m ok [] m hsz hsz rest false
-    else
-      match splitLf st.h [] with
-      | some (line, rest) =>
-        -- the buffer already holds a complete (last-chunk) line: trailer accumulation continues
-        gwLine maxField st st.h (st.h.getD (st.h.length - 2) 0 = cr) st.h m line.length 0 rest true
-      | none =>
-        let hlen := st.h.length
-        let (hsz, found) : Nat × Bool :=
-          match splitLf m [] with
-          | some (line, _) => (line.length, true)
-          | none => (m.length, false)
-        -- (off_t)(1024 - hlen) < hsz : the difference is computed in uint32_t
-        if wrap32 (Extracted.ckPartialMaxGw + (u32Max + 1) - hlen) < hsz then .err
-        else
-          let h' := st.h ++ m.take hsz
-          if !found then .stop { st with h := h' }
-          else
-            let m' := m.drop hsz
-            gwLine maxField st h' (h'.getD (h'.length - 2) 0 = cr) h' m' 0 0 m' true
-  else if st.te ≥ 2 then
-    let len : Int := m.length
-    let clen : Int := if st.te - 2 > len then len else st.te - 2
-    let m' := m.drop clen.toNat
-    let te' := st.te - clen
-    let st' := { st with te := te', out := st.out + clen.toNat }
-    if te' = 2 then
-      if m'.length ≥ 2 then
-        if m'.getD 0 0 ≠ cr || m'.getD 1 0 ≠ lf then .err else .cont { st' with te := 0 } (m'.drop 2)
-      else if m'.length = 1 then
-        if m'.getD 0 0 ≠ cr then .err else .stop { st' with te := 1 }
-      else .cont st' m'
-    else .cont st' m'
-  else if st.te = 1 then
-    if m.getD 0 0 ≠ lf then .err else .cont { st with te := 0 } (m.drop 1)
-  else .ub "negative gw_chunked"
-
-inductive GwOut
-  | ub (what : String)
-  | err
-  | ok (st : GwSt)
-deriving Repr, DecidableEq
-
-def gwLoop (maxField : Nat) : Nat → GwSt → Bytes → GwOut
-  | 0, _, _ => .ub "fuel"
-  | fuel + 1, st, m =>
-    if m.isEmpty then .ok st
-    else
-      match gwIter maxField st m with
-      | .ub w => .ub w
-      | .err => .err
-      | .stop st' => .ok st'
-      | .cont st' m' => gwLoop maxField fuel st' m'
-
-/-- one call of http_chunk_decode_append_data() with the bytes of one read -/
-def gwRead (maxField : Nat) (st : GwSt) (m : Bytes) : GwOut :=
-  if st.done then .err else gwLoop maxField (m.length + 1) st m
-
-/-- a whole response body delivered as a sequence of reads; stops at the first error.
-    Result: state after the last successful read, number of successful reads, failure,
-    largest header-buffer length seen after any read, largest length seen while the buffer
-    held an unterminated chunk-size line -/
-structure GwRun where
-  st : GwSt := {}
-  n : Nat := 0
-  fail : Option String := none       -- some "err" | some "ub:…"
-  maxh : Nat := 0
-  maxp : Nat := 0
-deriving Repr, DecidableEq
-
-def noLf (h : Bytes) : Bool := !h.contains lf
-
-def gwRunStep (maxField : Nat) (r : GwRun) (m : Bytes) : GwRun :=
-  if r.fail.isSome then r
-  else
-    match gwRead maxField r.st m with
-    | .ub w => { r with fail := some ("ub:" ++ w) }
-    | .err => { r with fail := some "err" }
-    | .ok st' =>
-      { r with st := st', n := r.n + 1, maxh := Nat.max r.maxh st'.h.length,
-               maxp := if noLf st'.h then Nat.max r.maxp st'.h.length else r.maxp }
-
-def gwRun (maxField : Nat) (reads : List Bytes) : GwRun := reads.foldl (gwRunStep maxField) {}
-
-/-! ### waiting for more header bytes: h1_recv_headers(), http_response_parse_headers() -/
-
-inductive HeadDecision
-  | reject          -- 431 / 502
-  | wait            -- headers incomplete: keep the bytes and read more
-  | complete (hlen : Nat)
-deriving Repr, DecidableEq
-
-/-- the decision both callers take on the bytes accumulated so far (`block`), with byte limit
-    `limit` (max_request_field_size / MAX_HTTP_RESPONSE_FIELD_SIZE); `lineCheck` = the caller also
-    tests `hoff[0] >= hoff431` (h1_recv_headers does, http_response_parse_headers does not) -/
-def headDecision (limit : Nat) (lineCheck : Bool) (block : Bytes) : R HeadDecision :=
-  match hoffScan 1 block with
-  | .ub w => .ub w
-  | .ok (ret, st) =>
-    if (if ret ≠ 0 then ret else block.length) > limit || (lineCheck && st.cnt ≥ Extracted.hoff431)
-    then .ok .reject
-    else if ret = 0 then .ok .wait else .ok (.complete ret)
 
 /-! ### http_header_parse_hoff() -/
 
@@ -534,6 +345,199 @@ def clear (b : Buf) : Buf := { b with used := 0 }
 /-- bytes passed to realloc(); `none` = ck_assert fails (elt_sz ≠ 0 is the callers' sizeof) -/
 def ckReallocU32 (n x elt : Nat) : Option Nat :=
   if x ≤ u32Max && n ≤ u32Max - x && n + x ≤ uszMax / elt then some ((n + x) * elt) else none
+
+/-! ### http_chunk_decode_append_data() across reads: the header / trailer accumulator -/
+
+/-- per-request decoder state kept between reads: `gw_chunked`, `gw_dechunk->b`, `done`,
+    and the number of body bytes handed on -/
+structure GwSt where
+  te : Int := 0
+  h : Bytes := []
+  done : Bool := false
+  out : Nat := 0
+deriving Repr, DecidableEq
+
+/-- one iteration of the `while (len)` loop -/
+inductive GwIter
+  | ub (what : String)
+  | err                                  -- return -1
+  | stop (st : GwSt)                     -- break
+  | cont (st : GwSt) (m : Bytes)         -- next iteration with the rest of the read
+deriving Repr, DecidableEq
+
+/-- offset of the first CRLFCRLF (strstr) -/
+def findCrlfCrlf : Bytes → Nat → Option Nat
+  | [], _ => none
+  | b :: rest, i =>
+    if b = cr && rest.take 3 = [lf, cr, lf] then some i else findCrlfCrlf rest (i + 1)
+
+/-- offset of the last LF (strrchr) -/
+def lastLf (bs : Bytes) : Option Nat :=
+  match splitLf bs.reverse [] with
+  | none => none
+  | some (line, _) => some (bs.length - line.length)
+
+/-- text validity after the hex digits (`*s != '\r'`, BWS, then CR or ';') -/
+def gwTailOk (after : Bytes) : Bool :=
+  if after.head? = some cr then true
+  else
+    match (after.dropWhile isWsb).head? with
+    | some b => b = cr || b = 59
+    | none => false
+
+/-- the last-chunk line is complete (gw_chunked = 0 after the hex loop): immediate CRLF, or
+    trailer accumulation bounded by `maxField` (server.max-request-field-size).
+    `h` = header buffer holding the line or [] (line then at the start of `m`), `hsz` as in the C,
+    `p` = the bytes the C pointer `p` points at. -/
+def gwLastChunk (maxField : Nat) (st : GwSt) (h m : Bytes) (hsz : Nat) (p : Bytes) : GwIter :=
+  let len : Int := m.length
+  if len - hsz ≥ 2 && p.getD 0 0 = cr && p.getD 1 0 = lf then
+    if len - hsz > 2 then .err else .stop { st with te := 0, h := [], done := true }
+  else
+    let mlen := if maxField > h.length then maxField - h.length else 0
+    if (mlen : Int) < len then
+      let h1 := h ++ m.take mlen
+      let h3 : Bytes :=
+        match lastLf h1 with
+        | some q =>
+          let h2 := h1.take (q + 1)
+          if h2.getD (q - 1) 0 ≠ cr then h2 ++ [cr, lf] else h2
+        | none => [48, cr, lf]
+      .stop { st with te := 0, h := h3 ++ [cr, lf], done := true }
+    else
+      let h1 := h ++ m
+      match findCrlfCrlf h1 0 with
+      | some k => if h1.length > k + 4 then .err else .stop { st with te := 0, h := h1, done := true }
+      | none => .stop { st with te := 0, h := h1 }
+
+/-- after a complete chunk-size line: hex loop, validity, then last-chunk handling or
+    `gw_chunked = size + 2`.  `src` = the bytes the hex loop reads (start of `mem` or of `h`),
+    `lineOk` = the CR test made while locating the line, `adv` = bytes of `m` the line occupies. -/
+def gwLine (maxField : Nat) (st : GwSt) (src : Bytes) (lineOk : Bool) (h m : Bytes) (hsz adv : Nat)
+    (p : Bytes) (fromH : Bool) : GwIter :=
+  match ckHex Extracted.ckGuardGw src 0 0 with
+  | .ub w => .ub w
+  | .tooLarge => .err
+  | .ok te k after =>
+    if !(lineOk && k ≠ 0 && gwTailOk after) then .err
+    else if te = 0 then gwLastChunk maxField st h m hsz p
+    else if fromH && hsz ≠ 0 then .ub "mem += hsz with hsz taken from the header buffer"
+    else
+      let te2 := te + 2
+      if !inI64 te2 then .ub "te+2"
+      else
+        let m' := m.drop adv
+        if m'.isEmpty then .stop { st with te := te2, h := [] } else .cont { st with te := te2, h := [] } m'
+
+def gwIter (maxField : Nat) (st : GwSt) (m : Bytes) : GwIter :=
+  if st.te = 0 then
+    if st.h.isEmpty then
+      match splitLf m [] with
+      | none =>
+        if m.length ≥ Extracted.ckPartialMaxGw then .err else .stop { st with h := m }
+      | some (line, rest) =>
+        let hsz := line.length
+        let ok := !(hsz = 1 || line.getD (hsz - 2) 0 ≠ cr)
+        gwLine maxField st m ok [] m hsz hsz rest false
+    else
+      match splitLf st.h [] with
+      | some (line, rest) =>
+        -- the buffer already holds a complete (last-chunk) line: trailer accumulation continues
+        gwLine maxField st st.h (st.h.getD (st.h.length - 2) 0 = cr) st.h m line.length 0 rest true
+      | none =>
+        -- an unterminated chunk-size line is buffered: the bound is on buffered + new bytes,
+        -- `(off_t)(1024 - hlen) < hsz` with the difference computed in uint32_t
+        match splitLf m [] with
+        | none =>
+          if wrap32 (Extracted.ckPartialMaxGw + (u32Max + 1) - st.h.length) < m.length then .err
+          else .stop { st with h := st.h ++ m }
+        | some (line, rest) =>
+          if wrap32 (Extracted.ckPartialMaxGw + (u32Max + 1) - st.h.length) < line.length then .err
+          else
+            let h' := st.h ++ line
+            gwLine maxField st h' (h'.getD (h'.length - 2) 0 = cr) h' rest 0 0 rest true
+  else if st.te ≥ 2 then
+    let len : Int := m.length
+    let clen : Int := if st.te - 2 > len then len else st.te - 2
+    let m' := m.drop clen.toNat
+    let te' := st.te - clen
+    let st' := { st with te := te', out := st.out + clen.toNat }
+    if te' = 2 then
+      if m'.length ≥ 2 then
+        if m'.getD 0 0 ≠ cr || m'.getD 1 0 ≠ lf then .err else .cont { st' with te := 0 } (m'.drop 2)
+      else if m'.length = 1 then
+        if m'.getD 0 0 ≠ cr then .err else .stop { st' with te := 1 }
+      else .cont st' m'
+    else .cont st' m'
+  else if st.te = 1 then
+    if m.getD 0 0 ≠ lf then .err else .cont { st with te := 0 } (m.drop 1)
+  else .ub "negative gw_chunked"
+
+inductive GwOut
+  | ub (what : String)
+  | err
+  | ok (st : GwSt)
+deriving Repr, DecidableEq
+
+def gwLoop (maxField : Nat) : Nat → GwSt → Bytes → GwOut
+  | 0, _, _ => .ub "fuel"
+  | fuel + 1, st, m =>
+    if m.isEmpty then .ok st
+    else
+      match gwIter maxField st m with
+      | .ub w => .ub w
+      | .err => .err
+      | .stop st' => .ok st'
+      | .cont st' m' => gwLoop maxField fuel st' m'
+
+/-- one call of http_chunk_decode_append_data() with the bytes of one read -/
+def gwRead (maxField : Nat) (st : GwSt) (m : Bytes) : GwOut :=
+  if st.done then .err else gwLoop maxField (m.length + 1) st m
+
+/-- a whole response body delivered as a sequence of reads; stops at the first error.
+    Result: state after the last successful read, number of successful reads, failure,
+    largest header-buffer length seen after any read, largest length seen while the buffer
+    held an unterminated chunk-size line -/
+structure GwRun where
+  st : GwSt := {}
+  n : Nat := 0
+  fail : Option String := none       -- some "err" | some "ub:…"
+  maxh : Nat := 0
+  maxp : Nat := 0
+deriving Repr, DecidableEq
+
+def noLf (h : Bytes) : Bool := !h.contains lf
+
+def gwRunStep (maxField : Nat) (r : GwRun) (m : Bytes) : GwRun :=
+  if r.fail.isSome then r
+  else
+    match gwRead maxField r.st m with
+    | .ub w => { r with fail := some ("ub:" ++ w) }
+    | .err => { r with fail := some "err" }
+    | .ok st' =>
+      { r with st := st', n := r.n + 1, maxh := Nat.max r.maxh st'.h.length,
+               maxp := if noLf st'.h then Nat.max r.maxp st'.h.length else r.maxp }
+
+def gwRun (maxField : Nat) (reads : List Bytes) : GwRun := reads.foldl (gwRunStep maxField) {}
+
+/-! ### waiting for more header bytes: h1_recv_headers(), http_response_parse_headers() -/
+
+inductive HeadDecision
+  | reject          -- 431 / 502
+  | wait            -- headers incomplete: keep the bytes and read more
+  | complete (hlen : Nat)
+deriving Repr, DecidableEq
+
+/-- the decision both callers take on the bytes accumulated so far (`block`), with byte limit
+    `limit` (max_request_field_size / MAX_HTTP_RESPONSE_FIELD_SIZE); `lineCheck` = the caller also
+    tests `hoff[0] >= hoff431` (h1_recv_headers does, http_response_parse_headers does not) -/
+def headDecision (limit : Nat) (lineCheck : Bool) (block : Bytes) : R HeadDecision :=
+  match hoffScan 1 block with
+  | .ub w => .ub w
+  | .ok (ret, st) =>
+    if (if ret ≠ 0 then ret else block.length) > limit || (lineCheck && st.cnt ≥ Extracted.hoff431)
+    then .ok .reject
+    else if ret = 0 then .ok .wait else .ok (.complete ret)
 
 /-! ### HTTP/2 frame length checks -/
 
